@@ -1,7 +1,7 @@
 (* C18 — pkcs5Unpadding as it was at the pinned commit (before fix 8f753d7,
    KNOWN_FINDINGS F16-unpad-empty), kept to document the two defects it had.  Each is
    refuted by a concrete input evaluated with vm_compute. *)
-From Coq Require Import List ZArith Bool.
+From Coq Require Import List ZArith Bool Lia.
 From GZ Require Import C18.Model.
 Import ListNotations.
 Open Scope Z_scope.
@@ -138,3 +138,42 @@ Proof.
   split; [vm_compute; reflexivity|]. split; [|vm_compute; reflexivity].
   cbn. intros [X|[]]. discriminate.
 Qed.
+
+(* seeded/C18-5: the time window computed on machine durations.  skew := now.Sub(time.Unix(t, 0))
+   is an int64 number of NANOSECONDS that SATURATES at the ends of the range; the hand-written
+   absolute value negates a negative skew in int64, where -(minimum) is the minimum again.  So a
+   timestamp more than ~292 years ahead gives skew = minimum, "abs" leaves it negative, and a
+   negative number is below every tolerance. *)
+Definition min_dur : Z := - 2 ^ 63.
+Definition max_dur : Z := 2 ^ 63 - 1.
+Definition sat_dur (x : Z) : Z := if x <? min_dur then min_dur else if max_dur <? x then max_dur else x.
+(* two's complement negation *)
+Definition neg64 (x : Z) : Z := if x =? min_dur then min_dur else - x.
+Definition pinned_skew_ok (now tol t : Z) : bool :=
+  let skew := sat_dur ((now - t) * 1000000000) in
+  let a := if skew <? 0 then neg64 skew else skew in
+  negb (tol * 1000000000 <? a).
+
+(* what the modelled (and today's) code decides, in Z *)
+Definition model_window_ok (now tol t : Z) : bool := negb ((t + tol <? now) || (now + tol <? t)).
+
+Lemma model_window_is_abs : forall now tol t, model_window_ok now tol t = true <-> Z.abs (now - t) <= tol.
+Proof.
+  intros. unfold model_window_ok. rewrite negb_true_iff, orb_false_iff, !Z.ltb_ge. lia.
+Qed.
+
+Theorem pinned_saturating_skew_refuted :
+  exists now tol t, pinned_skew_ok now tol t = true /\ ~ Z.abs (now - t) <= tol /\ model_window_ok now tol t = false.
+Proof.
+  exists 1790000000, 5, 20000000000. split; [vm_compute; reflexivity|]. split; [|vm_compute; reflexivity].
+  intros H. apply model_window_is_abs in H. vm_compute in H. discriminate.
+Qed.
+
+(* the same witnesses the seed names: milliseconds instead of seconds, 2^40, 2^62 — all accepted by
+   the pinned variant; a timestamp in the far past, or within 290 years ahead, is not *)
+Example pinned_saturating_skew_examples :
+  map (pinned_skew_ok 1790000000 5) [1790000000000; 2 ^ 40; 2 ^ 62; 0; -(2 ^ 62); 1790000000 + 290 * 31536000; 1790000006]
+  = [true; true; true; false; false; false; false] /\
+  map (model_window_ok 1790000000 5) [1790000000000; 2 ^ 40; 2 ^ 62; 0; -(2 ^ 62); 1790000005; 1790000006]
+  = [false; false; false; false; false; true; false].
+Proof. vm_compute. split; reflexivity. Qed.
